@@ -12,7 +12,7 @@ import re
 from sa.model import unparse, norm_stmt, call_name, kwarg, walk_no_nested, AnalysisError, str_consts
 from sa.cfg import CFG, literal
 from sa import guards as G
-from sa.affine import Interp, Aff, Obj, model_g2gene, model_gene2g, lift
+from sa.affine import Interp, Aff, Obj, model_g2gene, model_gene2g, lift, equal_mod
 
 GA = 'gtf.GenomicAnnotation:GenomicAnnotation.'
 
@@ -43,13 +43,17 @@ def run(chk, repo):
         'C11.a coordinate_genomic_to_gene and coordinate_gene_to_genomic are the definitional affine maps and mutual inverses on both strands; unstranded raises',
         'C11.b feature_coordinate_* and variant_coordinates_to_gene map half-open intervals to the definitional interval on both strands',
         'C11.c get_transcript_index: every non-exonic branch raises the intron error; the range pre-check dominates',
+        'C11.i transcript<->genomic through the exon loops: for sorted, non-empty exons separated by at least one intronic base, one iteration of '
+        'get_transcript_index / coordinate_transcript_to_genomic has the definitional effect on every path (passed exon: accumulate its length; '
+        'exit exon: the offset into it; intronic position: raise), so the two functions are mutual inverses on exonic positions of both strands '
+        'for any number of exons (affine iteration summaries, sign decisions over a cone)',
         'C11.d pointer-dict cache: bookkeeping only after a successful load; eviction and insertion are pairwise',
         'C11.e GTF and index writers/readers agree on offsets, symbols, keys and column order',
         'C11.f on-disk and in-memory transcript models are built through the same steps',
         'C11.h every feature list of a transcript model is sorted after its last producer (so the model is independent of the record order of the GTF); '
         'index offsets are byte counts of the raw lines',
     ]
-    chk.not_decided = ['transcript<->genomic inverse through the exon loops', 'sequence extraction and CDS/Sec inference']
+    chk.not_decided = ['sequence extraction and CDS/Sec inference', 'exon models with adjacent (gap-free) or overlapping exons (C11.i assumes sorted exons separated by >= 1 intronic base)']
     S, E, X = Aff.sym('S'), Aff.sym('E'), Aff.sym('index')
 
     # ------------------------------------------------------------------ a
@@ -138,7 +142,7 @@ def run(chk, repo):
                key=f"{f.qual}::interval::{s:+d}", fn=f.qual)
 
     # ------------------------------------------------------------------ c
-    chk.rule('C11.c', 'R-GUARD: intronic / out-of-range genomic positions raise in get_transcript_index', 4)
+    chk.rule('C11.c', 'R-GUARD: out-of-range genomic positions raise in get_transcript_index', 1)
     f = repo.func('gtf.TranscriptAnnotationModel:TranscriptAnnotationModel.get_transcript_index')
     chk.uses(f)
     body = f.node.body
@@ -148,38 +152,7 @@ def run(chk, repo):
         t == 'genomic_index<self.exon[0].location.startorgenomic_index>=self.exon[-1].location.end'
     chk.ob('C11.c', 'range pre-check raises for positions outside [first exon start, last exon end)', f.where, ok,
            f"range pre-check is '{unparse(first.test) if first is not None else None}'", key=f.qual + '::range', fn=f.qual)
-    loops = [n for n in walk_no_nested(f.node) if isinstance(n, ast.For)]
-    chk.ob('C11.c', 'one exon loop per strand', f.where, len(loops) == 2, f"{len(loops)} exon loops", key=f.qual + '::loops', fn=f.qual)
-    # expected comparison chains per strand (half-open exon intervals)
-    expected = {
-        'self.exon': [('exon.location.end < genomic_index', 'acc'), ('exon.location.end == genomic_index', 'raise'),
-                      ('exon.location.start <= genomic_index', 'hit'), (None, 'raise')],
-        'reversed(self.exon)': [('exon.location.start >= genomic_index', 'acc'), ('exon.location.end > genomic_index', 'hit'),
-                                (None, 'raise')],
-    }
-    for lp in loops:
-        it = unparse(lp.iter)
-        chain = []
-        st = lp.body[0] if len(lp.body) == 1 and isinstance(lp.body[0], ast.If) else None
-        while st is not None:
-            blk = st.body
-            kind = 'raise' if isinstance(blk[-1], ast.Raise) and 'ERROR_INDEX_IN_INTRON' in unparse(blk[-1]) else \
-                ('hit' if isinstance(blk[-1], ast.Break) and len(blk) == 2 else 'acc')
-            chain.append((literal(st.test), kind))
-            if len(st.orelse) == 1 and isinstance(st.orelse[0], ast.If):
-                st = st.orelse[0]
-            else:
-                if st.orelse:
-                    chain.append((None, 'raise' if isinstance(st.orelse[-1], ast.Raise) and 'ERROR_INDEX_IN_INTRON' in unparse(st.orelse[-1]) else 'other'))
-                else:
-                    chain.append((None, 'fallthrough'))
-                st = None
-        exp = [((literal(ast.parse(t, mode='eval').body) if t else None), k) for (t, k) in expected.get(it, [])]
-        ok = it in expected and chain == exp
-        chk.ob('C11.c', f"exon loop over {it}: half-open exon tests, every non-exonic branch raises ERROR_INDEX_IN_INTRON",
-               repo.loc(f, lp), ok,
-               f"branch chain {chain} differs from the half-open exon classification {expected.get(it)}: an intronic position "
-               "is mapped instead of rejected (or an exonic one rejected)", key=f.qual + f'::chain::{it}', fn=f.qual)
+    exon_loop_inverse(chk, repo, 'C11.i')
 
     # ------------------------------------------------------------------ d
     cache_typestate(chk, repo, 'C11.d')
@@ -337,6 +310,137 @@ def run(chk, repo):
                    f"{h}() indexes self.{a} by position but runs before self.{a}.sort()", key=f"{sr.qual}::sorted-before::{h}::{a}", fn=sr.qual)
     from rules.C13 import byte_offsets
     byte_offsets(chk, repo, 'C11.h', 'gtf.GTFPointer:iterate_pointer')
+
+
+def exon_loop_inverse(chk, repo, rid):
+    """E8: per-iteration affine summaries of the two exon loops, decided over cone domains (see sa/loops.py)"""
+    from sa import sem
+    from sa.loops import Domain, iteration_paths, feasible
+    chk.rule(rid, 'R-AFFINE-INV (loops): one iteration of the exon loops has the definitional effect on every path; '
+             'get_transcript_index and coordinate_transcript_to_genomic are inverse on exonic positions, intronic positions raise', 17)
+    g2t = repo.func('gtf.TranscriptAnnotationModel:TranscriptAnnotationModel.get_transcript_index')
+    t2g = repo.func(GA + 'coordinate_transcript_to_genomic')
+    chk.uses(g2t, t2g)
+    S, L, a, b, k, d_, r_ = (Aff.sym(x) for x in ('S', 'L', 'a', 'b', 'k', 'd', 'r'))
+    P = ['a', 'b', 'k', 'd', 'r']
+
+    def loop_of(fi, strand):
+        nf = sem.nf(repo, fi)
+        cands = [l for l in ast.walk(nf) if isinstance(l, ast.For) and isinstance(l.target, ast.Name) and re.search(r'\bexons?\b', unparse(l.iter))]
+        want_rev = strand == -1
+        sel = [l for l in cands if ('reversed(' in unparse(l.iter)) == want_rev]
+        if len(sel) != 1:
+            raise AnalysisError(f"anchor={fi.qual}: exon loop for strand {strand:+d} not found ({[unparse(l.iter) for l in cands]})")
+        return nf, sel[0]
+
+    def carried_of(loop):
+        c = sorted({unparse(n.target) for n in ast.walk(loop) if isinstance(n, ast.AugAssign) and isinstance(n.target, ast.Name)})
+        if len(c) != 1:
+            raise AnalysisError(f"anchor=exon loop: exactly one accumulator expected, found {c}")
+        return c[0]
+
+    def canon_for(tgt, param):
+        def canon(text):
+            if text == f'{tgt}.location.start':
+                return 'S'
+            if text == f'{tgt}.location.end':
+                return 'E'
+            if text == param:
+                return 'g'
+            if text == f'len({tgt}.location)' or text == f'len({tgt})':
+                return 'L'
+            return text
+        return canon
+    base = {'E': S + L}
+
+    def dispatch_ok(nf, strand, loop):
+        """on the given strand every completed path runs exactly the exon loop of that strand"""
+        res = Interp(strand, is_strand=strand_like, max_paths=4096).run_function(nf)
+        want = unparse(loop.iter)
+        seqs = [[e[1] for e in p_.events if e[0] == 'loop' and re.search(r'\bexons?\b', str(e[1])) and 'sum(' not in str(e[1])] for p_ in res]
+        ran = [s_ for s_ in seqs if s_]
+        return bool(ran) and all(s_ == [want] for s_ in ran)
+    for strand in (1, -1):
+        sg = f"strand {strand:+d}"
+        # ---------------- coordinate_transcript_to_genomic
+        nf_t, lp_t = loop_of(t2g, strand)
+        acc_t = carried_of(lp_t)
+        tparams = [p_ for p_ in t2g.params() if p_ != 'self']
+        defs_t = [n.value for n in ast.walk(nf_t) if isinstance(n, ast.Assign) and len(n.targets) == 1 and unparse(n.targets[0]) == acc_t]
+        ok_src = (acc_t == tparams[0] and not defs_t) or (bool(defs_t) and all(isinstance(v, ast.Name) and v.id == tparams[0] for v in defs_t))
+        chk.ob(rid, f"T2G {sg}: the loop consumes the requested transcript index", t2g.where, ok_src,
+               f"the accumulator '{acc_t}' of the exon loop is not the index parameter", key=f"{t2g.qual}::loop-input::{strand:+d}", fn=t2g.qual)
+        chk.ob(rid, f"T2G {sg}: the exon loop of this strand (and no other) runs", t2g.where, dispatch_ok(nf_t, strand, lp_t),
+               f"on {sg} the loop over '{unparse(lp_t.iter)}' is not the one executed (strand dispatch altered)", key=f"{t2g.qual}::dispatch::{strand:+d}", fn=t2g.qual)
+        tp = iteration_paths(lp_t, strand, [acc_t], canon_for(lp_t.target.id, '\0'), is_strand=strand_like)
+        I = Aff.sym(f'{acc_t}@in')
+        dom_exit = Domain({**base, f'{acc_t}@in': a, 'L': a + 1 + b}, P)
+        fe = feasible(tp, dom_exit)
+        V = None
+        want_v = (S + a) if strand == 1 else (S + b)
+        ok = bool(fe) and all(x.end == 'return' and isinstance(x.ret, Aff) for x in fe)
+        if ok:
+            vals = {repr(dom_exit.apply(x.ret)) for x in fe}
+            ok = vals == {repr(want_v)}
+            V = fe[0].ret
+        chk.ob(rid, f"T2G {sg}: inside the exit exon (0 <= index < length) the iteration returns the definitional position {want_v!r}", t2g.where, ok,
+               f"with 0 <= index < len(exon) one iteration takes {[x.describe() for x in fe]} (expected: return {'start + index' if strand == 1 else 'end - 1 - index'})",
+               key=f"{t2g.qual}::exit::{strand:+d}", fn=t2g.qual)
+        dom_pass = Domain({**base, 'L': 1 + b, f'{acc_t}@in': 1 + b + r_}, P)
+        fp = feasible(tp, dom_pass)
+        ok = bool(fp) and all(x.end == 'next' and x.delta[acc_t] is not None and dom_pass.apply(x.delta[acc_t] + L) == Aff(0) for x in fp)
+        chk.ob(rid, f"T2G {sg}: a passed exon (index >= length) subtracts exactly its length and continues", t2g.where, ok,
+               f"with index >= len(exon) one iteration takes {[x.describe() for x in fp]} (expected: index -= len(exon); next exon)",
+               key=f"{t2g.qual}::pass::{strand:+d}", fn=t2g.qual)
+        # ---------------- get_transcript_index
+        nf_g, lp_g = loop_of(g2t, strand)
+        acc_g = carried_of(lp_g)
+        gparam = [p_ for p_ in g2t.params() if p_ != 'self'][0]
+        init = sem.nearest_def(nf_g, lp_g, acc_g)
+        init_v = None
+        if isinstance(init, ast.Constant) and isinstance(init.value, int):
+            init_v = init.value
+        elif isinstance(init, ast.UnaryOp) and isinstance(init.op, ast.USub) and isinstance(init.operand, ast.Constant):
+            init_v = -init.operand.value
+        if init_v is None:
+            raise AnalysisError(f"anchor={g2t.qual}: constant initial value of '{acc_g}' before the exon loop ({sg}) not found")
+        chk.ob(rid, f"G2T {sg}: the exon loop of this strand (and no other) runs", g2t.where, dispatch_ok(nf_g, strand, lp_g),
+               f"on {sg} the loop over '{unparse(lp_g.iter)}' is not the one executed (strand dispatch altered)", key=f"{g2t.qual}::dispatch::{strand:+d}", fn=g2t.qual)
+        gp = iteration_paths(lp_g, strand, [acc_g], canon_for(lp_g.target.id, gparam), is_strand=strand_like)
+        J = Aff.sym(f'{acc_g}@in')
+        # exit exon: g ranges over the exon, g = T2G(a)
+        gdom = Domain({**base, 'L': a + 1 + b, 'g': want_v}, P)
+        fe = feasible(gp, gdom)
+
+        def exit_ok(x):
+            if x.end not in ('break', 'return'):
+                return False
+            dv = x.delta[acc_g] if x.end == 'break' else ((x.ret - J) if isinstance(x.ret, Aff) else None)
+            if dv is None:
+                return False
+            total = gdom.apply(dv + init_v)
+            return equal_mod(total, a, [gdom.apply(z) for z in x.afacts])
+        ok = bool(fe) and all(exit_ok(x) for x in fe)
+        chk.ob(rid, f"G2T {sg}: for an exonic position the iteration leaves the loop with initial value + offset = the transcript index "
+               "(get_transcript_index o coordinate_transcript_to_genomic = identity)", g2t.where, ok,
+               f"for g = {want_v!r} (offset a into the exon, initial value {init_v}) one iteration takes {[x.describe() for x in fe]}; "
+               "the accumulated index must equal a", key=f"{g2t.qual}::exit::{strand:+d}", fn=g2t.qual)
+        gpass = Domain({**base, 'L': 1 + b, 'g': (S + L + 1 + d_ + k) if strand == 1 else (S - 2 - d_ - k)}, P)
+        fp = feasible(gp, gpass)
+        ok = bool(fp) and all(x.end == 'next' and x.delta[acc_g] is not None and gpass.apply(x.delta[acc_g] - L) == Aff(0) for x in fp)
+        chk.ob(rid, f"G2T {sg}: an exon that lies entirely before the position (in transcript order) adds exactly its length and continues", g2t.where, ok,
+               f"for a position beyond the exon and the following intron one iteration takes {[x.describe() for x in fp]} (expected: index += len(exon); next exon)",
+               key=f"{g2t.qual}::pass::{strand:+d}", fn=g2t.qual)
+        gaps = {'before-exon': (S - 1 - k) if strand == 1 else (S + L + k)}
+        if strand == 1:
+            gaps['at-exon-end'] = S + L
+        for nm, gv in gaps.items():
+            gg = Domain({**base, 'L': 1 + b, 'g': gv}, P)
+            fg = feasible(gp, gg)
+            ok = bool(fg) and all(x.end == 'raise' and 'ERROR_INDEX_IN_INTRON' in x.p.raise_text for x in fg)
+            chk.ob(rid, f"G2T {sg}: an intronic position ({nm}) raises the intron error", g2t.where, ok,
+                   f"for an intronic position ({nm}: g = {gv!r}) one iteration takes {[x.describe() for x in fg]}: the position is mapped instead of rejected",
+                   key=f"{g2t.qual}::intron::{nm}::{strand:+d}", fn=g2t.qual)
 
 
 def cache_typestate(chk, repo, rid):
